@@ -205,7 +205,8 @@ class C11(Spec):
         if impl.startswith(("CRASH", "HANG")):
             return "promise interpreter %s on %s" % (impl, case)
         if case in ORDER_CASES and impl != ORDER_CASES[case]:
-            return "whenAll delivered %s, expected %s (values in argument order) for %s" % (impl, ORDER_CASES[case], case)
+            what = "whenAll delivered its values out of argument order" if any(o[0] in "AV" for o in case.split()[1:]) else "the callbacks that ran are not the ones the property prescribes"
+            return "%s: got %s, hand-computed expectation %s, program %s" % (what, impl, ORDER_CASES[case], case)
         evs = impl.split()[1:]
         for e in evs:
             if "J" in e and e.split("J")[1].isdigit() and int(e.split("J")[1]) >= 1000:
